@@ -18,6 +18,8 @@ ScalarTypes == {Sc(k) : k \in ScalarKinds}
 LiteralTypes == {Lit(<<"i0", "i1">>), Lit(<<"bF", "bT">>), Lit(<<"i1">>), Lit(<<"i2">>), Lit(<<"s_a", "i2", "none">>),
                  Lit(<<"i2", "s_a", "s_int", "i_neg", "i_big">>), Lit(<<"i0", "s_a", "s_int", "i_neg", "i_big">>),
                  Lit(<<"bT", "s_a">>),
+                 \* a bool member and an int member of DIFFERENT value: the type test and the value test must not be made separately
+                 Lit(<<"i0", "bT">>), Lit(<<"i1", "bF">>), Lit(<<"bF", "i2">>), Lit(<<"i0", "bT", "s_a", "i2", "none">>),
                  \* Enum and bytes members next to members of the bool / int look-alike group and to plain ones
                  Lit(<<"e_a">>), Lit(<<"e_a", "e_b">>), Lit(<<"i0", "e_a">>), Lit(<<"i1", "e_b">>), Lit(<<"bT", "e_a", "e_b">>),
                  Lit(<<"s_a", "e_a">>), Lit(<<"i2", "e_b">>), Lit(<<"by_a">>), Lit(<<"i0", "by_a">>), Lit(<<"s_a", "by_a", "e_b">>),
